@@ -90,16 +90,21 @@ def _get_func_name_start_end(
     raise RuntimeError(f"Cannot find {node.name} in code block:\n{codeblock}")
 
 
+def _names_never_substituted(ast_tree: ast.Module) -> Collection[str]:
+    """Names that _fix_variable_names refuses to rename anything to."""
+    return (
+        tracing.get_imported_names(ast_tree)
+        | constants.BUILTIN_FUNCTIONS
+        | constants.PYTHON_KEYWORDS
+    )
+
+
 def _fix_variable_names(
     source: str, renamings: Mapping[ast.AST, str], preserve: Collection[str] = frozenset()
 ) -> str:
     replacements = []
     ast_tree = core.parse(source)
-    blacklisted_names = (
-        tracing.get_imported_names(ast_tree)
-        | constants.BUILTIN_FUNCTIONS
-        | constants.PYTHON_KEYWORDS
-    )
+    blacklisted_names = _names_never_substituted(ast_tree)
     for node, substitutes in renamings.items():
         if len(substitutes) != 1:
             continue
@@ -1042,6 +1047,9 @@ def remove_duplicate_functions(source: str, preserve: Collection[str]) -> str:
         else:
             replacement = min(funcdefs, key=lambda node: node.lineno)
             preserved_nodes = {replacement}
+
+        if replacement.name in _names_never_substituted(root):
+            continue  # The uses of the duplicates cannot be redirected to it, so they must stay
 
         for node in funcdefs - preserved_nodes:
             delete.add(node)
